@@ -51,6 +51,18 @@ theorem Rel2.filter {R : Env → Env → Prop} (p q : Env → Bool) (h : ∀ a b
     · exact .cons hab ih
     · exact ih
 
+theorem Rel2.append {R : Env → Env → Prop} {A B C D : List Env} (h1 : Rel2 R A B) (h2 : Rel2 R C D) :
+    Rel2 R (A ++ C) (B ++ D) := by
+  induction h1 with
+  | nil => exact h2
+  | cons hab _ ih => exact .cons hab ih
+
+theorem Rel2.flatMap {R S : Env → Env → Prop} (f g : Env → List Env) (h : ∀ a b, R a b → Rel2 S (f a) (g b)) {A B : List Env}
+    (r : Rel2 R A B) : Rel2 S (A.flatMap f) (B.flatMap g) := by
+  induction r with
+  | nil => exact .nil
+  | cons hab _ ih => simp only [List.flatMap_cons]; exact (h _ _ hab).append ih
+
 theorem Rel2.map_eq {α : Type} {R : Env → Env → Prop} (f g : Env → α) (h : ∀ a b, R a b → f a = g b) {A B : List Env}
     (r : Rel2 R A B) : A.map f = B.map g := by
   induction r with
@@ -200,6 +212,34 @@ theorem eval_agree (t : IR) : ∀ (ρ ρ' : Env) (A A' : List Env), Agree (fv t)
     have : A.map (fun σ => eval σ [] a) = A'.map (fun σ => eval σ [] a) :=
       Rel2.map_eq _ _ (fun σ σ' hσ => iha σ σ' [] [] hσ .nil) hA
     cases op <;> simp only [eval, this]
+  case aggExplode x e b ihe ihb =>
+    intro ρ ρ' A A' h hA
+    simp only [fv] at h
+    simp only [fva] at hA
+    simp only [eval]
+    apply ihb _ _ _ _ h
+    refine Rel2.flatMap _ _ ?_ hA
+    intro σ σ' hσ
+    rw [ihe σ σ' [] [] (hσ.mono (by simp +contextual)) .nil]
+    cases asArr (eval σ' [] e) with
+    | error o => exact .nil
+    | ok vs => exact Rel2.of_map _ _ (fun w => (hσ.mono (by simp +contextual)).cons_remove w) vs
+  case aggGroupBy k b ihk ihb =>
+    intro ρ ρ' A A' h hA
+    simp only [fv] at h
+    simp only [fva] at hA
+    simp only [eval]
+    have hk : ∀ σ σ', Agree (fv k ++ fva b) σ σ' → eval σ [] k = eval σ' [] k :=
+      fun σ σ' hσ => ihk σ σ' [] [] (hσ.mono (by simp +contextual)) .nil
+    rw [Rel2.map_eq _ _ hk hA]
+    congr 1
+    apply List.map_congr_left
+    intro kv _
+    congr 1
+    apply ihb _ _ _ _ h
+    refine (Rel2.filter _ _ ?_ hA).mono (fun _ _ hab => hab.mono (by simp +contextual))
+    intro σ σ' hσ
+    rw [hk σ σ' hσ]
 
 /-- the same term in two value scopes that agree on its free variables, same aggregation scope -/
 theorem eval_agree_env (t : IR) (ρ ρ' : Env) (A : List Env) (h : ∀ z ∈ fv t, lookup ρ z = lookup ρ' z) :
@@ -209,7 +249,7 @@ theorem eval_agree_env (t : IR) (ρ ρ' : Env) (A : List Env) (h : ∀ z ∈ fv 
 /-- a term without ambient aggregation nodes does not depend on the aggregation scope -/
 theorem eval_A_irrel (t : IR) : ∀ (ρ : Env) (A A' : List Env), usesAgg t = false → eval ρ A t = eval ρ A' t := by
   induction t
-  case agg | aggFilter => intro _ _ _ h; simp [usesAgg] at h
+  case agg | aggFilter | aggExplode | aggGroupBy => intro _ _ _ h; simp [usesAgg] at h
   case aggLet x v b _ ihb =>
     intro ρ A A' h
     simp only [usesAgg] at h
